@@ -97,6 +97,8 @@ namespace cgi {
 				h(booster::system::error_code(errc::protocol_violation,cppcms_category));
 				return;
 			}
+			// terminate the header block so that a missing NUL can't make strlen run past the buffer
+			buffer_.back() = 0;
 
 			char const *p=&buffer_[sep_ + 1];
 			while(p < &buffer_.back()) {
